@@ -282,7 +282,8 @@ def cargo_build(ctx, release=False, bin=None):
         # checking a scratch copy of the repository (seeded-change runs): override the path
         # dependency and keep the build output apart from the main cache
         target = os.path.join(CACHE, "target_alt")
-        cmd += ["--config", 'paths=["%s/dds","%s/dds_gen","%s/dds_derive"]' % (REPO, REPO, REPO), "--target-dir", target]
+        ps = [os.path.join(REPO, d) for d in ("dds", "dds_gen", "dds_derive") if os.path.isdir(os.path.join(REPO, d))]
+        cmd += ["--config", "paths=[%s]" % ",".join('"%s"' % x for x in ps), "--target-dir", target]
     with Lock("cargo" if target.endswith("target") else "cargo_alt"):
         rc, out = sh(cmd, cwd=HARNESS, timeout=3000, env=env)
     if rc != 0:
